@@ -63,4 +63,16 @@ CLAIMED["C01"] = {
           "(same error code for the first failing event is checked by the correspondence, positions are not). Known finding C01-nullable-container is exactly the class excluded by the theorem's hypothesis.",
   "technique": "Coq proof (operational validator model = declarative shape predicate, nested induction over documents) + generated/mutational correspondence on verdict and error code",
 }
+CLAIMED["C08"] = {
+  "text": "PARTIAL. Proved by translation (tabx -> Gen/RuleTables.v, recomputed on every run): C08_matrix / C08_matrix_entry - the 26x8 table of IsJsonTypeCompatible bodies equals the "
+          "statement's applicability table (numeric rules on numbers, precision on float, length/regex/formats on strings, item counts on arrays, additionalProperties/allOf/required-keys on "
+          "objects, const/enum on scalars, optional/nullable/type/or/any anywhere); C08_formats_exclude_length_and_regex over allowedConstraintCheck's banned pairs; C08_rule_names. "
+          "NOT proved: the whole compile pipeline's iff and its permutation invariance; these are checked through the API: every single rule x node kind at root and as a property, "
+          "ordered/equal/unordered paired bounds with exclusive flags, exclusive flag (true or false) without its bound, precision/decimal, format + length/regex, enum/any/or with "
+          "foreign rules, unknown and duplicate rules; and order independence by running all permutations (<= 4 rules) or 24 random ones of 250 (quick) / 6000 (thorough) mixed rule sets "
+          "and requiring identical verdict and error code.",
+  "note": "Trusted: Coq kernel; tabx's evaluation of the boolean bodies (unknown shapes fail loudly); the harness. The API-level part is enumeration/sampling, not proof. The order dependence the "
+          "pinned tree had ({nullable:false, const:false, ...}) came from the ordered map's Filter and is fixed by fc34ee4.",
+  "technique": "Coq computed theorems over rule tables translated from source + API-level enumeration of rule/kind combinations and exhaustive/sampled permutation runs (partial)",
+}
 NOT_APPLICABLE = {}
